@@ -19,7 +19,7 @@ RULE = ("seeded random circuits (2-6 modes, 0-4 loss elements anywhere incl. los
         "backends; distinct = (lossy?, #loss modes, photon number, bunched?, heralded?, modes); non-trivial = "
         "lossy or bunched or heralded")
 MANDATORY = ["lossy_slos", "lossy_permanent", "vacuum_input", "total_loss_element", "bunched_input",
-             "heralded", "lossless"]
+             "heralded", "lossless", "seven_or_more_modes", "other_sampler_defaults_edited_in_place"]
 DECIDING = ["mon.sampler_dist_postconditions", "mon.backend_dist_postconditions:slos",
             "mon.backend_dist_postconditions:permanent", "cross_backend_comparisons"]
 BUDGET = {"quick": 25, "thorough": 420}
@@ -34,12 +34,13 @@ def run(ctx):
     rng = ctx.rng
     State, emu = lw.State, lw.emulator
     first = True
+    previous: list = []
     while not ctx.out_of_time():
         loss_p = float(rng.choice([0.0, 0.25, 0.5]))
         b = Builder(rng, lw, loss_p=loss_p, max_herald_photons=1)
         if loss_p == 0:
             b.allow = b.allow - {"loss"}
-        n = int(rng.integers(2, 7))
+        n = int(rng.integers(2, 7)) if rng.random() < 0.9 else int(rng.integers(7, 10))
         log: list = []
         try:
             if rng.random() < 0.5:
@@ -68,12 +69,25 @@ def run(ctx):
             nph = int(rng.integers(0, 5))
             if nph + hph > 5:
                 nph = max(0, 5 - hph)
+            if k >= 7:
+                nph = min(nph, 2)
+                ctx.bucket("seven_or_more_modes")
             occ = random_state(rng, k, nph)
             case = {"circuit": log, "input": occ}
             dists = {}
+            if previous and rng.random() < 0.5:
+                # another sampler's default source / detector is reconfigured in place (public API); this must not
+                # leak into samplers created afterwards
+                prev = previous[int(rng.integers(len(previous)))]
+                setattr(prev.source, str(rng.choice(["brightness", "purity", "indistinguishability"])),
+                        float(rng.uniform(0.6, 0.95)))
+                prev.detector.efficiency = float(rng.uniform(0.5, 0.9))
+                ctx.bucket("other_sampler_defaults_edited_in_place")
             for backend in ("permanent", "slos"):
                 try:
                     s = emu.Sampler(c, State(occ), backend=backend)
+                    previous.append(s)
+                    del previous[:-6]
                     dists[backend] = {tuple(st): p for st, p in s.probability_distribution.items()}
                 except Exception as e:  # noqa: BLE001
                     ctx.violation(f"Sampler({backend}).probability_distribution raised {type(e).__name__}: {e}",
